@@ -529,27 +529,35 @@ pub fn gen_expensive_eos(rng: &mut StdRng, reps: usize, far: bool) -> (GenStream
             push(cs, prog, Sym::Match { d: 3, n: f as u32 });
         }
     };
-    // Phase A: length low-tree at pos_state pst, path 000: train "00"->1 (len 3), "0"->1 (len 4), root->1 (len 6)
-    for n in [3u32, 4, 6] {
-        for _ in 0..reps {
-            align(&mut cs, &mut prog, &mut push);
-            push(&mut cs, &mut prog, Sym::Match { d: 2, n });
-        }
-    }
-    // Phase B: align tree (reverse), path 1111: nodes 15, 7, 3, 1 trained with low distance bits 0111, 0011, 0001, 0000
-    for low in [7u64, 3, 1, 0] {
-        for k in 0..reps {
-            let d0 = 128 + 16 * (k as u64 % 8) + low; // slot 14/15: 3 direct bits + align
-            push(&mut cs, &mut prog, Sym::Match { d: d0 + 1, n: 2 });
-        }
-    }
     // Phase C (far): position-slot tree of length state 0, node "1": slots 32..47 need distances >= 65536
+    // (first: these trainers push the root of that tree the wrong way, phase B repairs it)
     if far {
         while cs.out.len() < 70000 {
             push(&mut cs, &mut prog, Sym::Match { d: 1, n: 273 });
         }
         for k in 0..reps {
-            push(&mut cs, &mut prog, Sym::Match { d: 65537 + (k as u64 % 50) * 16 + 15, n: 2 });
+            if cs.out.len() % 16 == pst {
+                push(&mut cs, &mut prog, Sym::Lit { b: 1 });
+            }
+            push(&mut cs, &mut prog, Sym::Match { d: 65537 + (k as u64 % 50) * 16, n: 2 });
+        }
+    }
+    // Phase B: align tree (reverse), path 1111: nodes 15, 7, 3, 1 trained with low distance bits 0111, 0011, 0001, 0000
+    // (length 2 at a pos_state other than pst, so that the low length tree of pst is left alone)
+    for low in [7u64, 3, 1, 0] {
+        for k in 0..reps {
+            if cs.out.len() % 16 == pst {
+                push(&mut cs, &mut prog, Sym::Lit { b: 1 });
+            }
+            let d0 = 128 + 16 * (k as u64 % 8) + low; // slot 14/15: 3 direct bits + align
+            push(&mut cs, &mut prog, Sym::Match { d: d0 + 1, n: 2 });
+        }
+    }
+    // Phase A: length low-tree at pos_state pst, path 000: train "00"->1 (len 3), "0"->1 (len 4), root->1 (len 6)
+    for n in [3u32, 4, 6] {
+        for _ in 0..reps {
+            align(&mut cs, &mut prog, &mut push);
+            push(&mut cs, &mut prog, Sym::Match { d: 2, n });
         }
     }
     // Phase D: len.choice -> 1 with long matches (length state 3, small distances: no align bits)
@@ -575,6 +583,22 @@ pub fn gen_expensive_eos(rng: &mut StdRng, reps: usize, far: bool) -> (GenStream
     }
     assert_eq!(cs.st, 0);
     prog.push(Sym::Eos);
+    if std::env::var("LZVERIF_DEBUG_EOS").is_ok() {
+        // per-decision cost of the marker in bits
+        let mut c2 = coding::CS::default();
+        let mut probs = coding::Probs::default();
+        let mut enc = crate::kernel::RangeEnc::new();
+        for s in &prog[..prog.len() - 1] {
+            let d = c2.decisions(s, p);
+            coding::encode_decs(&mut enc, &mut probs, &d);
+            c2.apply(s);
+        }
+        for d in c2.decisions(&Sym::Eos, p) {
+            let pr = *probs.get(d.ctx) as f64 / 2048.0;
+            let pb = if d.b { 1.0 - pr } else { pr };
+            eprintln!("  {:?} bit {} p0={:.3} cost {:.2} bits", d.ctx, d.b as u8, pr, -pb.log2());
+        }
+    }
     let enc = coding::encode_program(&prog, p);
     let cost = enc.costs.last().unwrap().bytes;
     let mut data = lzma_header(p, 1 << 20, Some(u64::MAX));
@@ -587,6 +611,92 @@ pub fn gen_expensive_eos(rng: &mut StdRng, reps: usize, far: bool) -> (GenStream
         bounds.push(cb);
     }
     (GenStream { data, opt: Opt::ReadFromHeader, origin: format!("expensive-eos/{}B", cost), bounds }, cost)
+}
+
+/// Like gen_expensive_eos, but the target is an ordinary long match at a distance of about 1 MiB
+/// (8 trained bits of the high length tree + 15 direct bits), FOLLOWED by more symbols: the expensive
+/// symbol sits in the middle of the stream.  Returns (stream, cost of the target, index of the target symbol).
+pub fn gen_expensive_match(rng: &mut StdRng, reps: usize) -> (GenStream, u32, usize) {
+    let p = Props { lc: 0, lp: 0, pb: 4 };
+    let pst: usize = 9;
+    let v: u32 = 0b1010_0110;
+    let mut cs = coding::CS::default();
+    let mut prog: Vec<Sym> = vec![];
+    let mut push = |cs: &mut coding::CS, prog: &mut Vec<Sym>, s: Sym| {
+        assert!(cs.valid(&s), "trainer produced an invalid symbol {:?} at {}", s, cs.out.len());
+        cs.apply(&s);
+        prog.push(s);
+    };
+    for i in 0..64usize {
+        push(&mut cs, &mut prog, Sym::Lit { b: (i * 11 % 251) as u8 });
+    }
+    // history of a bit more than 1 MiB
+    while cs.out.len() < (1 << 20) + 5000 {
+        push(&mut cs, &mut prog, Sym::Match { d: 64, n: 273 });
+    }
+    let off_pst = |cs: &mut coding::CS, prog: &mut Vec<Sym>, push: &mut dyn FnMut(&mut coding::CS, &mut Vec<Sym>, Sym)| {
+        if cs.out.len() % 16 == pst {
+            push(cs, prog, Sym::Match { d: 3, n: 2 });
+        }
+    };
+    // align tree, path 1111 (deepest node first)
+    for low in [7u64, 3, 1, 0] {
+        for k in 0..reps {
+            off_pst(&mut cs, &mut prog, &mut push);
+            push(&mut cs, &mut prog, Sym::Match { d: 128 + 16 * (k as u64 % 8) + low + 1, n: 2 });
+        }
+    }
+    // high length tree, path of v, deepest node first; small distances train posslot[3]'s root towards 0
+    for k in 0..8u32 {
+        for _ in 0..reps {
+            push(&mut cs, &mut prog, Sym::Match { d: 5, n: 18 + (v ^ (1 << k)) });
+        }
+    }
+    // choice2 -> 0 (lengths 10..17), then choice -> 0 (short lengths)
+    for _ in 0..reps {
+        push(&mut cs, &mut prog, Sym::Match { d: 5, n: 12 });
+    }
+    for _ in 0..reps {
+        off_pst(&mut cs, &mut prog, &mut push);
+        push(&mut cs, &mut prog, Sym::Match { d: 2, n: 3 });
+    }
+    // is_rep[0] -> 1
+    for _ in 0..reps {
+        for _ in 0..3 {
+            push(&mut cs, &mut prog, Sym::Lit { b: rng.gen() });
+        }
+        if cs.out.len() % 16 == pst {
+            push(&mut cs, &mut prog, Sym::Lit { b: rng.gen() });
+        }
+        push(&mut cs, &mut prog, Sym::Rep { r: 0, n: 2 });
+    }
+    // is_match[0][pst] -> 0
+    for _ in 0..(16 * reps + 3) {
+        push(&mut cs, &mut prog, Sym::Lit { b: rng.gen() });
+    }
+    while cs.out.len() % 16 != pst {
+        push(&mut cs, &mut prog, Sym::Lit { b: rng.gen() });
+    }
+    assert_eq!(cs.st, 0);
+    let target_idx = prog.len();
+    push(&mut cs, &mut prog, Sym::Match { d: (1 << 20) + 15 + 16 * 37 + 1, n: 18 + v });
+    for b in [1u8, 2, 3] {
+        push(&mut cs, &mut prog, Sym::Lit { b });
+    }
+    push(&mut cs, &mut prog, Sym::Rep { r: 0, n: 7 });
+    prog.push(Sym::Eos);
+    let enc = coding::encode_program(&prog, p);
+    let cost = enc.costs[target_idx].bytes;
+    let mut data = lzma_header(p, 1 << 22, Some(u64::MAX));
+    let hl = data.len();
+    data.extend_from_slice(&enc.payload);
+    let mut bounds = vec![];
+    let mut cb = hl + 5;
+    for c in &enc.costs {
+        cb += c.bytes as usize;
+        bounds.push(cb);
+    }
+    (GenStream { data, opt: Opt::ReadFromHeader, origin: format!("expensive-match/{}B", cost), bounds }, cost, target_idx)
 }
 
 pub fn gen_cuts(rng: &mut StdRng, g: &GenStream, strategy: usize) -> Vec<usize> {
@@ -675,7 +785,7 @@ pub fn run_c05(prop: &str, seed: u64, nstreams: usize, nsyms: usize, trace_path:
     // worst-case symbol: every cut position inside the most expensive symbol we can construct, and every
     // pair (cut, cut + k): the symbol is then completed through the partial input buffer
     for far in [false, true] {
-        let (g, cost) = gen_expensive_eos(&mut rng, 70, far);
+        let (g, cost) = gen_expensive_eos(&mut rng, 170, far);
         rep.add(if far { "expensive_symbol_bytes_far" } else { "expensive_symbol_bytes" }, cost as u64);
         let n = g.data.len();
         let start = n - cost as usize;
@@ -696,6 +806,23 @@ pub fn run_c05(prop: &str, seed: u64, nstreams: usize, nsyms: usize, trace_path:
         if rep.samples.len() < 6 {
             rep.sample(json!({"origin": g.origin, "bytes": n, "marker_cost_bytes": cost, "cuts": "every offset inside the marker x second cut {0,1,2,5,19,20} bytes later"}));
         }
+    }
+    {
+        let (g, cost, ti) = gen_expensive_match(&mut rng, 170);
+        rep.add("expensive_match_bytes", cost as u64);
+        let end = g.bounds[ti];
+        let start = end - cost as usize;
+        let n = g.data.len();
+        let mut none = None;
+        for a in 0..=(cost as usize) {
+            for k in [0usize, 1, 3, 19, 20, 21] {
+                let mut cuts = vec![start.saturating_sub(2), start + a, (start + a + k).min(n)];
+                cuts.sort();
+                let c = StreamCase { data_hex: hex(&g.data), opt: g.opt, memlimit: None, allow_incomplete: false, cuts, origin: g.origin.clone(), mode: "c05".into(), extra_writes: vec![] };
+                check_case(&c, prop, rep, &mut none);
+            }
+        }
+        rep.sample(json!({"origin": g.origin, "bytes": n, "target_cost_bytes": cost, "cuts": "every offset inside the expensive match x second cut {0,1,3,19,20,21} bytes later"}));
     }
     for i in 0..nstreams {
         let ns = if i % 7 == 0 { nsyms * 4 } else { 1 + rng.gen_range(0..nsyms) };
